@@ -464,6 +464,7 @@ class NNFizer(DagWalker):
                 formula.is_symbol() or \
                 formula.is_function_application() or \
                 formula.is_bool_constant() or \
+                formula.is_select() or \
                 formula.is_theory_relation(), str(formula)
             return []
 
@@ -536,10 +537,14 @@ class NNFizer(DagWalker):
         #pylint: disable=unused-argument
         return formula
 
-    @handles(op.THEORY_OPERATORS)
+    @handles(op.THEORY_OPERATORS - frozenset([op.ARRAY_SELECT]))
     def walk_theory_op(self, formula, **kwargs):
         #pylint: disable=unused-argument
         return None
+
+    def walk_array_select(self, formula: FNode, **kwargs) -> FNode:
+        # A select from an array of Booleans is an atom
+        return formula
 
 # EOC NNFizer
 
